@@ -66,6 +66,12 @@ MonNext(m, ev) ==
         connSig |-> (IF newConn THEN 0 ELSE m.connSig) + NConnected(ev.sig),
         hung |-> ev.hang, iq |-> p.iq]
 
+\* the set of failures is kept bounded per clause: a broken implementation fails in thousands of
+\* executions, the first ones per clause identify it (and the validation stays linear)
+AddViol(new) == IF new = {} THEN viol
+                ELSE viol \cup {v \in new : Cardinality({w \in viol : w.prop = v.prop}) < 40}
+
+
 \* property predicates on observed facts. m = monitor before the step, n = after,
 \* okModel = the execution had not diverged before this step, cf = the model's `conf` after the step,
 \* modelConnected = number of `connected` signals the model predicts for this step
@@ -120,8 +126,8 @@ OpStep(ev) ==
                 \/ ModelProj' # ImplProj(ev.post)
                 \/ lastOut' # Relevant(ev.out)
                 \/ SessSig(lastSig') # SessSig(ev.sig)
-       IN /\ viol' = viol \cup {[case |-> cid, line |-> l, prop |-> x, e |-> ev.e] :
-                                 x \in Failed(mon, mon', ev, ~dflag /\ stepped, conf', NConnected(lastSig'))}
+       IN /\ viol' = AddViol({[case |-> cid, line |-> l, prop |-> x, e |-> ev.e] :
+                                 x \in Failed(mon, mon', ev, ~dflag /\ stepped, conf', NConnected(lastSig'))})
           /\ dflag' = (dflag \/ d)
           /\ ndiv' = IF d /\ ~dflag THEN ndiv + 1 ELSE ndiv
           /\ divs' = Note(d, [case |-> cid, line |-> l, e |-> ev.e, stepped |-> stepped,
@@ -134,13 +140,13 @@ OpStep(ev) ==
 \* "Epilogue" marks the end of the honest reconnection appended to every behaviour: it must have
 \* produced a session.
 EndStep(ev) ==
-    /\ viol' = viol \cup (IF ev.iqIssued /\ ev.iqDone # 1
-                           THEN {[case |-> cid, line |-> l, prop |-> "C10-RequestNotCompletedExactlyOnce", e |-> "End"]} ELSE {})
+    /\ viol' = AddViol(IF ev.iqIssued /\ ev.iqDone # 1
+                         THEN {[case |-> cid, line |-> l, prop |-> "C10-RequestNotCompletedExactlyOnce", e |-> "End"]} ELSE {})
     /\ UNCHANGED <<vars, cid, mon, ndiv, divs, dflag, ncases>>
 
 EpilogueStep(ev) ==
-    /\ viol' = viol \cup (IF ~ev.skipped /\ ~(mon.session /\ mon.sock = "On" /\ mon.connSig = 1)
-                           THEN {[case |-> cid, line |-> l, prop |-> "C10-ReconnectDoesNotSucceed", e |-> "Epilogue"]} ELSE {})
+    /\ viol' = AddViol(IF ~ev.skipped /\ ~(mon.session /\ mon.sock = "On" /\ mon.connSig = 1)
+                         THEN {[case |-> cid, line |-> l, prop |-> "C10-ReconnectDoesNotSucceed", e |-> "Epilogue"]} ELSE {})
     /\ UNCHANGED <<vars, cid, mon, ndiv, divs, dflag, ncases>>
 
 \* the behaviour could not be continued on the real objects (the implementation is somewhere the
